@@ -9,8 +9,8 @@
 EXTENDS WGraph
 
 CONSTANTS NFree,     \* number of free relations in doc (2 or 3)
-          Menu,      \* set of shape numbers the first free relation takes
-          Menu2      \* set of shape numbers the other free relations take
+          MenuSeq,   \* shape numbers the first free relation takes (a sequence: cfg constants are cheap to reference,
+          Menu2Seq   \* shape numbers the other free relations take    zero-arity definitions are re-evaluated by TLC)
 
 This == [k |-> "this"]
 CU(r) == [k |-> "cu", rel |-> r]
@@ -67,8 +67,6 @@ ModelOf(choice) ==     \* choice: function 1..NFree -> Menu
 
 RECURSIVE Digits(_, _)
 Digits(c, i) == IF i > NFree THEN "" ELSE ToString(c[i]) \o (IF i < NFree THEN "." ELSE "") \o Digits(c, i + 1)
-MenuSeq == SortedSeq(Menu)
-Menu2Seq == SortedSeq(Menu2)
 K == Len(MenuSeq)
 K2 == Len(Menu2Seq)
 RECURSIVE Pow(_, _)
